@@ -401,6 +401,10 @@ type Num interface{ ~int | ~int64 }
 
 type Impl int
 
+type LocalList []string
+
+type LocalMap map[string]int
+
 func (Impl) String() string { return "impl" }
 `
 
@@ -506,6 +510,11 @@ func (g *gen) iface(name string, shared *embed, extra []string) (string, Iface) 
 		// cell is dropped and counted); without the flag they are ordinary methods.
 		fmt.Fprintf(&b, "\tLoad(key string) int\n\t%s\n", []string{"ResetLoadCalls()", "ResetCalls()", "ResetLoadCalls()"}[st.Int(3)])
 		out.Methods += 2
+	}
+	if st := tape.New(tape.MixS(g.side, "named-composites:"+name)); st.Int(4) == 0 && !taken["Batch"] {
+		// named slice and map types declared in the source package itself
+		fmt.Fprintf(&b, "\t%s\n", []string{"Batch(items LocalList, idx LocalMap) LocalList", "Batch(idx LocalMap, more ...LocalList) (LocalMap, error)", "Batch(_ LocalList, n int)"}[st.Int(3)])
+		out.Methods++
 	}
 	if st := tape.New(tape.MixS(g.side, "self-ref:"+name)); len(g.tparams) == 0 && !taken["Chain"] {
 		// builder-style methods: the interface itself as the only result, or among
